@@ -73,6 +73,17 @@ let () =
   reg "mod_uint" (function [x; y] -> [umod w32 (mod_uint x y)] | _ -> failwith "arity");
   reg "factorial" (function [sg; w; x] -> [umod w (factorial (b sg) w (norm (b sg) w x))] | _ -> failwith "arity");
   reg "nlz" (function [x] -> [umod w32 (nlz x)] | _ -> failwith "arity")
+  ;
+  (* C14: arguments are  mb  w  then patterns; counts are int patterns *)
+  reg "nextafter" (function [mb; w; x; y] -> [nextafter mb w x y] | _ -> failwith "arity");
+  reg "nextFloat" (function [mb; w; x] -> [nextFloat mb w x] | _ -> failwith "arity");
+  reg "prevFloat" (function [mb; w; x] -> [prevFloat mb w x] | _ -> failwith "arity");
+  reg "nextFloatN" (function [mb; w; x; n] -> [nextFloatN mb w x (i32 n)] | _ -> failwith "arity");
+  reg "prevFloatN" (function [mb; w; x; n] -> [prevFloatN mb w x (i32 n)] | _ -> failwith "arity");
+  reg "floatDistance" (function [mb; w; x; y] -> [umod w (floatDistance w x y)] | _ -> failwith "arity");
+  reg "equalULP_scalar" (function [mb; w; x; y; n] -> [bz (equalULP_scalar w x y (i32 n))] | _ -> failwith "arity");
+  reg "equalULP_vec" (function [mb; w; x; y; n] -> [bz (equalULP_vec w x y (i32 n))] | _ -> failwith "arity")
+
 
 
 let () =
